@@ -251,17 +251,41 @@ struct inplace_vector<T, 0> {
 
     [[nodiscard]] static constexpr auto max_size() noexcept -> etl::size_t { return 0; }
 
-    [[nodiscard]] constexpr auto front() -> reference { etl::unreachable(); }
+    [[nodiscard]] constexpr auto front() -> reference
+    {
+        TETL_PRECONDITION(false);
+        etl::unreachable();
+    }
 
-    [[nodiscard]] constexpr auto front() const -> const_reference { etl::unreachable(); }
+    [[nodiscard]] constexpr auto front() const -> const_reference
+    {
+        TETL_PRECONDITION(false);
+        etl::unreachable();
+    }
 
-    [[nodiscard]] constexpr auto back() -> reference { etl::unreachable(); }
+    [[nodiscard]] constexpr auto back() -> reference
+    {
+        TETL_PRECONDITION(false);
+        etl::unreachable();
+    }
 
-    [[nodiscard]] constexpr auto back() const -> const_reference { etl::unreachable(); }
+    [[nodiscard]] constexpr auto back() const -> const_reference
+    {
+        TETL_PRECONDITION(false);
+        etl::unreachable();
+    }
 
-    [[nodiscard]] constexpr auto operator[](size_type /*n*/) -> reference { etl::unreachable(); }
+    [[nodiscard]] constexpr auto operator[](size_type /*n*/) -> reference
+    {
+        TETL_PRECONDITION(false);
+        etl::unreachable();
+    }
 
-    [[nodiscard]] constexpr auto operator[](size_type /*n*/) const -> const_reference { etl::unreachable(); }
+    [[nodiscard]] constexpr auto operator[](size_type /*n*/) const -> const_reference
+    {
+        TETL_PRECONDITION(false);
+        etl::unreachable();
+    }
 
     constexpr auto try_push_back(T const& /*val*/) -> T* { return nullptr; }
 
@@ -273,17 +297,31 @@ struct inplace_vector<T, 0> {
         return nullptr;
     }
 
-    constexpr auto unchecked_push_back(T const& /*val*/) -> T& { etl::unreachable(); }
-
-    constexpr auto unchecked_push_back(T&& /*val*/) -> T& { etl::unreachable(); }
-
-    template <typename... Args>
-    constexpr auto unchecked_emplace_back(Args&&... /*args*/) -> T&
+    constexpr auto unchecked_push_back(T const& /*val*/) -> T&
     {
+        TETL_PRECONDITION(false);
         etl::unreachable();
     }
 
-    constexpr auto pop_back() -> void { etl::unreachable(); }
+    constexpr auto unchecked_push_back(T&& /*val*/) -> T&
+    {
+        TETL_PRECONDITION(false);
+        etl::unreachable();
+    }
+
+    template <typename... Args>
+    constexpr auto unchecked_emplace_back(Args&&... /*args*/) -> T&
+   
+    {
+        TETL_PRECONDITION(false);
+        etl::unreachable();
+    }
+
+    constexpr auto pop_back() -> void
+    {
+        TETL_PRECONDITION(false);
+        etl::unreachable();
+    }
 
     constexpr auto clear() noexcept -> void { }
 };
